@@ -673,7 +673,7 @@ def _precedence(match):
         return max([_precedence(item) for item in match])
     if isinstance(match, type):
         return 2
-    if hasattr(match, "glomit"):
+    if hasattr(match, "glomit") or callable(match):
         return 1
     return 0  # == match
 
